@@ -37,6 +37,7 @@ func TestC10(t *testing.T) {
 		{"create-plugin-write-fails", []Op{{Kind: "create", Pod: 0, Count: 2, CPU: 50, Mem: 100}}, 0, FaultSpec{Method: "Plugin.SetNodeResourceUsage", Target: "*", Ord: 0}, false},
 		{"dissociate-usage-decr-fails", []Op{{Kind: "create", Pod: 0, Count: 2, CPU: 100, Mem: 100}, {Kind: "dissociate"}}, 1, FaultSpec{Method: "SetNodeResourceUsage", Target: "*", Ord: 0}, true},
 		{"setnode-meta-late-info-fails", []Op{{Kind: "create", Pod: 0, Count: 1, CPU: 100, Mem: 100}, {Kind: "setnode", Node: 0, Bypass: 1, Label: 3, SetMem: true, Delta: true, Mem: 500}}, 1, FaultSpec{Method: "GetNodeResourceInfo", Target: "*", Ord: 1}, true},
+		{"fill-zero-count-node", []Op{{Kind: "create", Pod: 0, Count: 1, CPU: 50, Mem: 100, Strategy: "FILL", Limit: 1}, {Kind: "create", Pod: 0, Count: 1, CPU: 50, Mem: 100, Strategy: "FILL", Limit: 2}}, -1, FaultSpec{}, false},
 		{"remove-engine-fails", []Op{{Kind: "create", Pod: 0, Count: 2, CPU: 50, Mem: 100}, {Kind: "remove", Force: true}}, 1, FaultSpec{Method: "VirtualizationRemove", Target: "*", Ord: 0}, false},
 		{"removenode-plugin-fails", []Op{{Kind: "removenode", Node: 2}}, 0, FaultSpec{Method: "RemoveNode", Target: "n2", Ord: 1}, false},
 		{"setnode-update-fails", []Op{{Kind: "setnode", Node: 1, SetMem: true, Delta: true, Mem: 500}}, 0, FaultSpec{Method: "UpdateNodes", Target: "*", Ord: 0}, false},
